@@ -41,6 +41,16 @@ class M(Quiet):
         rv = op.recv_val
         return isinstance(rv, ast.Name) and rv.id == 'self' and callee.name == '_cull'
 
+    def call_raises(self, walker, op, st):
+        if txt(op.val.func) == 'self._pop_entry':
+            return ('IndexError',)
+        return ()
+
+    def sub_raises(self, walker, op, st):
+        if op.kind == 'sub_load' and txt(walker.expand(op.val.value)) == 'self._pq':
+            return ('IndexError',)
+        return ()
+
 
 def run(ctx):
     prog = ctx.program
@@ -126,8 +136,22 @@ def run(ctx):
                     ok = bool(culls) and not between
                     ctx.ob('T9.cull', '%s.%s' % (cls, name), 'removed entries are culled before the head of the backend is read or popped',
                            ok, loc=loc(f, h.node), path=p.describe() if not ok else None)
+                # the backend is ordered only at its head: peek/pop never scan it
+                scans = [o for o in p.ops if o.depth == 0 and o.kind == 'iter_start' and txt(w.expand(o.val)) == 'self._pq']
+                if scans:
+                    ctx.ob('T9.head', '%s.%s' % (cls, name), 'the backend is read only at its head (a heap is not sorted: scanning it in '
+                           'storage order does not find the highest priority)', False, loc=loc(f, scans[0].node), path=p.describe())
+                # an empty (or tombstone-only) queue is answered by the default: IndexError raised by the cull or by the
+                # backend must not leave the method on its own
+                if p.kind == 'raise' and p.outcome[1] == 'IndexError':
+                    last = [o for o in p.ops if o.kind in ('raise', 'raise_at')][-1]
+                    own = last.kind == 'raise' and last.depth == 0
+                    ctx.ob('T14.empty', '%s.%s' % (cls, name), 'IndexError from culling / the backend is caught and turned into the default '
+                           '(or the method\'s own IndexError)', own, loc=loc(f, last.node), path=p.describe() if not own else None)
                 if name == 'pop' and p.kind == 'return':
-                    popc = [o for o in p.ops if o.depth == 0 and o.kind == 'call' and txt(o.val.func) == 'self._pop_entry']
+                    raised_nodes = {id(x.node) for x in p.ops if x.kind == 'raise_at'}
+                    popc = [o for o in p.ops if o.depth == 0 and o.kind == 'call' and txt(o.val.func) == 'self._pop_entry'
+                            and id(o.node) not in raised_nodes]
                     if popc:
                         dels = [o for o in p.ops if o.kind == 'sub_del' and txt(o.val.value) == 'self._entry_map' and o.seq > popc[0].seq]
                         tok = [nm for nm, info in w.tokens.items() if info[0] == 'call' and len(info) > 2 and info[2] is popc[0]]
